@@ -264,7 +264,7 @@ def main(prop, tier, seed, replay_path=None):
             mc['distinct'] += mcB['distinct']
             mc['generated'] += mcB['generated']
         # rename / move followed by remove / rename / move (depth 2): a structure that was renamed or moved is edited again
-        small = [c for c in charts if c['n'] <= 4][:6 if quick else 40]
+        small = [c for c in charts if c['n'] <= 4][:6 if quick else 14]
         if small:
             dD = tlc.workdir('C16_model_again')
             with open(os.path.join(dD, 'ChartsData.tla'), 'w') as f:
